@@ -9,9 +9,12 @@ ctx = vlib.Ctx("DEV", "quick", 1)
 try:
     bins = ctx.build(["semdrive"])
     chains = [[tuple(x.split(":")) for x in a.split(",")] for a in sys.argv[1:]]
-    if mode == "taint":
-        progs = sem.build_programs(ctx, chains, sem.TAINT_CONFIGS, lambda ch, name: semgen.build_chain(ch, name=name))
-        sem.drive(ctx, bins, progs, taint=sem.ALL_TAINT_RUNS)
+    if mode in ("taint", "esc"):
+        cfgs = sem.TAINT_CONFIGS if mode == "taint" else sem.ESC_CONFIGS
+        runs = sem.ALL_TAINT_RUNS if mode == "taint" else list(cfgs)
+        sg = bool(os.environ.get("SRCGO")); kg = bool(os.environ.get("SINKGO"))
+        progs = sem.build_programs(ctx, chains, cfgs, lambda ch, name: semgen.build_chain(ch, name=name, src_in_go=sg, sink_in_go=kg))
+        sem.drive(ctx, bins, progs, taint=runs)
         for p in progs:
             if p.facts is None:
                 print("ABSENT", p.meta["chain"], p.absent[:2000])
